@@ -42,7 +42,12 @@ func main() {
 	repo := flag.String("repo", "/repo", "repository working tree to analyse")
 	replay := flag.String("replay", "", "print a findings file and re-run its property")
 	list := flag.Bool("list", false, "list properties and rules")
+	dbg := flag.String("debug", "", "developer aids: lockinfer")
 	flag.Parse()
+	if *dbg == "lockinfer" {
+		debugLockInfer(*repo)
+		return
+	}
 
 	if *list {
 		var ids []string
